@@ -26,7 +26,10 @@ def _block(draw, bits=None):
     if bits is None:
         bits = draw(st.booleans())
     val = st.booleans() if bits else st.integers(0, 0xFFFF)
-    shape = draw(st.sampled_from(['seq', 'seq', 'sparse-dict', 'sparse-list']))
+    shape = draw(st.sampled_from(['seq', 'seq', 'sparse-dict', 'sparse-list', 'seq-scalar']))
+    if shape == 'seq-scalar':
+        # the documented one-value form: ModbusSequentialDataBlock(address, value)
+        return {'shape': 'seq', 'start': draw(st.one_of(st.integers(0, 20), st.integers(0, 65535))), 'values': [draw(val)], 'bits': bits, 'scalar': True}
     if shape == 'seq':
         n = draw(st.integers(1, 64))
         start = draw(st.one_of(st.integers(0, 20), st.integers(0, 65535), st.just(65535 - n + 1), st.just(65536 - n - 1)))
@@ -44,6 +47,8 @@ def _block(draw, bits=None):
 
 
 def _extent(b):
+    if b['shape'] == 'default':
+        return range(65536)
     if b['shape'] == 'seq':
         return list(range(b['start'], b['start'] + len(b['values'])))
     if b['shape'] == 'sparse-list':
@@ -64,7 +69,15 @@ def _ops(draw, blk, minlen=1, maxlen=14, with_reset=True):
         st.tuples(st.just('set'), addr, st.lists(val, min_size=1, max_size=min(len(keys) + 2, 12))),
         st.tuples(st.just('validate'), addr, count),
         *( [st.tuples(st.just('reset'))] if with_reset else [] ))
-    return [list(x) for x in draw(st.lists(one, min_size=minlen, max_size=maxlen))]
+    ops = [list(x) for x in draw(st.lists(one, min_size=minlen, max_size=maxlen))]
+    # call forms: count left to its default of 1, a single value written as a scalar
+    forms = draw(st.lists(st.booleans(), min_size=len(ops), max_size=len(ops)))
+    for o, short in zip(ops, forms):
+        if short and o[0] in ('validate', 'get') and o[2] == 1:
+            o.append('default-count')
+        elif short and o[0] == 'set' and len(o[2]) == 1:
+            o.append('scalar')
+    return ops
 
 
 @st.composite
@@ -76,10 +89,17 @@ def _block_case(draw):
 @st.composite
 def _slave_case(draw):
     blocks = {'c': draw(_block(True)), 'd': draw(_block(True)), 'h': draw(_block(False)), 'i': draw(_block(False))}
+    # tables the caller does not name get the documented default: all 65536 addresses, zero
+    for k in sorted(blocks):
+        if draw(st.integers(0, 5)) == 0:
+            blocks[k] = {'shape': 'default', 'values': [], 'bits': False}
     zero = draw(st.booleans())
     ops = []
     n = draw(st.integers(1, 10))
     for _ in range(n):
+        if draw(st.integers(0, 11)) == 0:
+            ops.append([0, 'reset'])
+            continue
         fx = draw(st.sampled_from(sorted(FX_TABLE)))
         o = draw(_ops(blocks[FX_TABLE[fx]], 1, 1, with_reset=False))[0]
         if o[0] != 'reset':
@@ -134,14 +154,20 @@ def sweeps(tier):
 
 def _make_block(b):
     from pymodbus.datastore.store import ModbusSequentialDataBlock, ModbusSparseDataBlock
+    if b['shape'] == 'default':
+        return None
     if b['shape'] == 'seq':
-        return ModbusSequentialDataBlock(b['start'], list(b['values']))
+        if b.get('scalar'):
+            return ModbusSequentialDataBlock(b['start'], b['values'][0])
+        return ModbusSequentialDataBlock(b['start'], list(b['values']) if len(b['values']) % 2 else tuple(b['values']))
     if b['shape'] == 'sparse-list':
         return ModbusSparseDataBlock(list(b['values']))
     return ModbusSparseDataBlock(dict(zip(b['keys'], b['values'])))
 
 
 def _model(b):
+    if b['shape'] == 'default':
+        return dict.fromkeys(range(65536), 0)
     return dict(zip(_extent(b), b['values']))
 
 
@@ -164,12 +190,15 @@ def _apply(block, model, default, op, discs, labels, written, tag=''):
         lo, hi = min(model), max(model)
         if a in (lo, hi) or a + c - 1 in (lo, hi) or a + c - 1 == hi + 1 or a == lo - 1:
             labels.append('touches-boundary')
-        got = block.validate(a, c)
+        form = op[3] if len(op) > 3 else None
+        if form:
+            labels.append('form:' + form)
+        got = block.validate(a) if form == 'default-count' else block.validate(a, c)
         if bool(got) != ok:
             discs.append(Disc('validate', '%svalidate(%d,%d) = %r, populated=%r (extent %d..%d, %d cells)' % (tag, a, c, got, ok, lo, hi, len(model))))
             return False
         if ok and name == 'get':
-            vals = block.getValues(a, c)
+            vals = block.getValues(a) if form == 'default-count' else block.getValues(a, c)
             want = [model[a + i] for i in range(c)]
             if list(vals) != want:
                 discs.append(Disc('read', '%sgetValues(%d,%d) = %r, model %r' % (tag, a, c, list(vals)[:20], want[:20])))
@@ -177,7 +206,7 @@ def _apply(block, model, default, op, discs, labels, written, tag=''):
             if any((a + i) in written for i in range(c)):
                 labels.append('read-after-write')
         if ok and name == 'set':
-            block.setValues(a, list(op[2]))
+            block.setValues(a, op[2][0] if form == 'scalar' else list(op[2]))
             for i, v in enumerate(op[2]):
                 model[a + i] = v
                 written.add(a + i)
@@ -215,27 +244,57 @@ def _run_slave(case):
     from pymodbus.datastore.context import ModbusSlaveContext
     blocks = dict((k, _make_block(b)) for k, b in case['blocks'].items())
     models = dict((k, _model(b)) for k, b in case['blocks'].items())
-    ctx = ModbusSlaveContext(di=blocks['d'], co=blocks['c'], hr=blocks['h'], ir=blocks['i'], zero_mode=case['zero_mode'])
+    kw = dict((name, blocks[k]) for name, k in (('di', 'd'), ('co', 'c'), ('hr', 'h'), ('ir', 'i')) if blocks[k] is not None)
+    ctx = ModbusSlaveContext(zero_mode=case['zero_mode'], **kw)
+    for k in blocks:
+        if blocks[k] is None:
+            blocks[k] = ctx.store[k]
+    big = set(k for k, b in case['blocks'].items() if b['shape'] == 'default')
     off = 0 if case['zero_mode'] else 1
-    discs, labels = [], ['slave', 'zero_mode:%s' % case['zero_mode']]
+    discs, labels = [], ['slave', 'zero_mode:%s' % case['zero_mode']] + (['default-tables:%d' % len(big)] if big else [])
     written = dict((k, set()) for k in blocks)
+
+    def tables_agree(op, window=None):
+        for k in sorted(blocks):
+            if k in big and window is not None:
+                lo_, hi_ = max(0, window[0] - 3), min(65535, window[1] + 3)
+                got_ = list(blocks[k].getValues(lo_, hi_ - lo_ + 1))
+                if got_ != [models[k][x] for x in range(lo_, hi_ + 1)]:
+                    discs.append(Disc('state', 'after %r defaulted table %s differs from the model around %d..%d (a write leaked into or missed a table)' % (op, k, lo_, hi_)))
+                    return False
+            elif _dump(blocks[k]) != models[k]:
+                discs.append(Disc('state', 'after %r table %s differs from the model (a write leaked into or missed a table)' % (op, k)))
+                return False
+        return True
     try:
         for op in case['ops']:
+            if op[1] == 'reset':
+                labels.append('slave-reset')
+                ctx.reset()
+                for k in models:
+                    d_ = False if case['blocks'][k]['bits'] else 0
+                    for x in models[k]:
+                        models[k][x] = d_
+                    written[k].clear()
+                if not tables_agree(op):
+                    break
+                continue
             fx, name, a = op[0], op[1], op[2]
             t = FX_TABLE[fx]
             model = models[t]
             c = op[3] if name != 'set' else len(op[3])
+            form = op[4] if len(op) > 4 else None
             ok = all((a + off + i) in model for i in range(c))
             labels.append('fx:%d' % fx)
             lo, hi = min(model), max(model)
             if a + off in (lo, hi) or a + off + c - 1 in (lo, hi, hi + 1):
                 labels.append('touches-boundary')
-            got = ctx.validate(fx, a, c)
+            got = ctx.validate(fx, a) if form == 'default-count' else ctx.validate(fx, a, c)
             if bool(got) != ok:
                 discs.append(Disc('validate', 'context.validate(fx=%d, %d, %d) = %r, model %r (zero_mode=%r, table %s extent %d..%d)' % (fx, a, c, got, ok, case['zero_mode'], t, lo, hi)))
                 break
             if ok and name == 'get':
-                vals = ctx.getValues(fx, a, c)
+                vals = ctx.getValues(fx, a) if form == 'default-count' else ctx.getValues(fx, a, c)
                 want = [model[a + off + i] for i in range(c)]
                 if list(vals) != want:
                     discs.append(Disc('read', 'context.getValues(fx=%d, %d, %d) = %r, model %r' % (fx, a, c, list(vals)[:20], want[:20])))
@@ -247,12 +306,13 @@ def _run_slave(case):
                 for i, v in enumerate(op[3]):
                     model[a + off + i] = v
                     written[t].add(a + off + i)
-            for k in blocks:
-                if _dump(blocks[k]) != models[k]:
-                    discs.append(Disc('state', 'after %r table %s differs from the model (a write leaked into or missed a table)' % (op, k)))
-                    break
-            if discs:
+            if not tables_agree(op, (a + off, a + off + c - 1)):
                 break
+        if not discs:
+            for k in sorted(big):
+                if _dump(blocks[k]) != models[k]:
+                    discs.append(Disc('state', 'at the end defaulted table %s differs from the model somewhere outside the windows looked at' % k))
+                    break
     except Exception as e:
         discs.append(Disc('raises', 'slave context ops %r: %s: %s' % (case['ops'], type(e).__name__, e)))
     return Outcome(discs, labels, 'touches-boundary' in labels or 'read-after-write' in labels)
